@@ -141,7 +141,16 @@ def one_case(ctx, seed, idx):
             attrs_ = {'dbusInterfaces': [p[0] for p in pairs]}
             if idx % 4 == 1:
                 attrs_['__len__'] = lambda self_: 0        # an exported object that is an empty container: falsy
-            cls = type('Obj%d' % idx, (O.DBusObject,), attrs_)
+            if nif >= 2 and idx % 2:
+                # the interfaces are declared along a class hierarchy, and an instance of the BASE class is in use first
+                base_cls = type('ObjBase%d' % idx, (O.DBusObject,), dict(attrs_, dbusInterfaces=[pairs[0][0]]))
+                b_ = base_cls('/base')
+                list(b_.getInterfaces())
+                X.generateIntrospectionXML('/base', {'/base': b_})
+                cls = type('Obj%d' % idx, (base_cls,), {'dbusInterfaces': [p[0] for p in pairs[1:]]})
+                ctx.count('hierarchies_with_base_instance_first')
+            else:
+                cls = type('Obj%d' % idx, (O.DBusObject,), attrs_)
             obj = cls('/obj')
         else:
             obj = (FalsyHolder if idx % 4 == 2 else Holder)([p[0] for p in pairs])
